@@ -102,6 +102,9 @@ impl TranscriptProtocol for Transcript {
         let mut buf = [0u8; 64];
         self.challenge_bytes(label, &mut buf);
 
+        #[cfg(all(dusk_plonk_verif, feature = "std"))]
+        crate::verif::log_challenge(label, &BlsScalar::from_bytes_wide(&buf));
+
         BlsScalar::from_bytes_wide(&buf)
     }
 
